@@ -157,7 +157,7 @@ Print Assumptions C03_getters_total_any_packet.
 (* The defects F5 and F6 of the PINNED tree, re-established on a transliteration of the pinned functions
    (Model/AFPinned.v): on these well-formed packets the pinned code breaks the refinement resp. refuses a call whose
    result fits.  The witnesses are corpus/C03/known-defects.txt lines 1 and 5; /repo answers exactly what
-   AFPinned computes (notes/findings/C03.md), the repaired code (AF.*) satisfies the theorems above. *)
+   AFPinned computes (notes/findings/C03.md), the repaired code (module AF) satisfies the theorems above. *)
 Theorem C03_F5_pinned_refuted : exists p l hdr pay p', repr p l hdr pay /\
   AFPinned.SetHasTransportPrivateData p false = Ok p' /\
   ~ (exists l', op_rel l (AF.OSetHasTPD false) (Done l') /\ repr p' l' hdr pay).
